@@ -211,6 +211,11 @@ func c07Corpus() []string {
 		all += d.Render() + "\n// comment\n"
 	}
 	files = append(files, all, strings.ReplaceAll(all, "\n", "\r\n"))
+	// annotations are accepted (and ignored) in front of every directive kind
+	for _, d := range ds[:5] {
+		files = append(files, "@performance(USD)\n"+d.Render(), "# c\n@accrue monthly 2020-01-01 2020-03-31 Assets:X\n@performance(CHF)\n"+d.Render()+"\n// end\n")
+	}
+	files = append(files, "@performance(USD)\ninclude \"sub/b.knut\"\n", "2020-01-30 open Assets:A\n@accrue monthly 2020-01-01 2020-03-31 Assets:X\n@performance(CHF)\ninclude \"x.knut\"\n2020-01-30 close Assets:A\n")
 	return files
 }
 
